@@ -96,7 +96,10 @@ def build_incon(t2incons, sub, nblk, nvar, flags):
                       'iter': rng.choice((0, 3, 99999, rng.randint(0, 99999))),
                       'nm': rng.choice((0, 1, big, rng.randint(0, big))),
                       'tstart': gen_real(rng, False, False),
-                      'sumtim': gen_real(rng, False, False)}
+                      # the long header prints sumtim again with 6 decimals: a value representable
+                      # there (else the header is re-derived from the 9-decimal rounding of the
+                      # timing record -- double rounding no writer can make stable)
+                      'sumtim': float('%.6e' % gen_real(rng, False, False))}
     return inc
 
 
